@@ -4,17 +4,101 @@ Deciding method: Coq theorems (Properties/C12.v) about the stack / command model
 the code by the translator (Gen/*.v) and by history-level differential testing of the
 extracted model against the real stg, with direct oracles on the real repository."""
 
-from . import histcheck
+import subprocess
+
+from . import common, histcheck, repo
 
 LEVEL = "proof"
 PROFILES = [('COMMIT', 4), ('BASIC', 1)]
 ORACLES = ['prev', 'c02', 'c01']
 
 
+def uncommit_probes(ctx, stg):
+    """`stg uncommit` over a history with a merge commit and down to the root: merge and root
+    commits are refused (also as the inclusive --to target), a refusal changes nothing, a success
+    turns exactly the commits just below the base into applied patches in order, without touching
+    head, index or work tree"""
+    failures = []
+    n = 0
+
+    def build(r):
+        r.init_repo()                                   # root commit R
+        for nm in ("A", "A2"):
+            r.write(nm + ".txt", nm + "\n")
+            r.git(["add", "-A"])
+            r.git(["commit", "-q", "-m", "commit " + nm])
+        r.git(["checkout", "-q", "-b", "side", "HEAD~1"])
+        r.write("side.txt", "s\n")
+        r.git(["add", "-A"])
+        r.git(["commit", "-q", "-m", "side work"])
+        r.git(["checkout", "-q", "main"])
+        r.git(["merge", "-q", "--no-ff", "-m", "merge side", "side"])     # M
+        for nm in ("B", "C"):
+            r.write(nm + ".txt", nm + "\n")
+            r.git(["add", "-A"])
+            r.git(["commit", "-q", "-m", "commit " + nm])
+        r.stg(stg, ["init"])
+        g = lambda rev: r.rev(rev)
+        return {"C": g("HEAD"), "B": g("HEAD~1"), "M": g("HEAD~2"), "A2": g("HEAD~3"), "A": g("HEAD~4"),
+                "R": g("HEAD~5")}
+
+    def snap(r):
+        return (r.rev("HEAD"), r.git(["write-tree"]).stdout, r.git(["status", "--porcelain"]).stdout,
+                r.stg(stg, ["series", "--noprefix", "-a"]).stdout, r.rev("refs/stacks/main"))
+
+    # (argv, expected outcome): the list of commits (bottom first) that become patches, or None = refused
+    cases = [(["-n", "1"], ["C"]), (["-n", "2"], ["B", "C"]), (["-n", "3"], None), (["-n", "4"], None),
+             (["--to", "M"], None), (["--to", "M", "-x"], ["B", "C"]), (["--to", "B"], ["B", "C"]),
+             (["--to", "B", "-x"], ["C"]), (["--to", "A2"], None), (["--to", "A"], None), (["--to", "R"], None),
+             (["u1", "u2"], ["B", "C"]), (["u1", "u2", "u3"], None), ([], ["C"])]
+    for args, want in cases:
+        with repo.Scratch("c12u") as r:
+            ids = build(r)
+            argv = ["uncommit"] + [ids.get(a, a) if a in ids and args and args[0] == "--to" else a for a in args]
+            before = snap(r)
+            p = r.stg(stg, argv)
+            after = snap(r)
+            n += 1
+            probs = []
+            if "panicked" in p.stderr:
+                probs.append("panic")
+            if want is None:
+                if p.returncode == 0:
+                    probs.append("accepted although a merge or root commit would become a patch")
+                if before != after:
+                    probs.append("refused but something changed")
+            else:
+                if p.returncode != 0:
+                    probs.append("refused: %s" % p.stderr.strip()[-120:])
+                else:
+                    if before[:3] != after[:3]:
+                        probs.append("head, index or work tree changed")
+                    names = after[3].split()
+                    got = [r.rev("refs/patches/main/" + x) for x in names]
+                    if got != [ids[k] for k in want]:
+                        probs.append("applied patches are not the commits %r in order" % want)
+            if probs:
+                failures.append({"obligation": "direct-oracle:C12:uncommit", "argv": ["uncommit"] + args,
+                                 "exit": p.returncode, "problems": probs, "stderr": p.stderr[-300:]})
+    ctx.obligations += 1
+    if not failures:
+        ctx.discharged += 1
+    for f in failures[:4]:
+        common.violation(ctx, f, found_input=True, hint="probe-")
+    ctx.coverage["uncommit_probes"] = n
+    ctx.coverage["evaluations"] = ctx.coverage.get("evaluations", 0) + n
+
+
 def run(ctx):
+    uncommit_probes(ctx, common.build_stg())
     histcheck.run_property(ctx, PROFILES, ORACLES, n_quick=48, n_thorough=700, nsteps=32 if ctx.quick() else 45,
                            own_oracle="c12")
 
 
 def replay(ctx, path):
+    import json
+    if str(json.load(open(path)).get("obligation", "")).startswith("direct-oracle:C12:uncommit"):
+        uncommit_probes(ctx, common.build_stg())
+        print("uncommit probes: %d violation(s)" % len(ctx.violations))
+        return 1 if ctx.violations else 0
     return histcheck.replay_scenario(ctx, path, ORACLES)
